@@ -3,6 +3,7 @@ package props
 import (
 	"fmt"
 	"strings"
+	"time"
 
 	"github.com/gobuffalo/plush/v5"
 
@@ -260,12 +261,21 @@ func c16Ctx(env *c16Env) *plush.Context {
 	rec := newT("r")
 	rec.Next = &T{Name: "n"}
 	ctx.Set("rec", rec)
+	ctx.Set("dur", 1500*time.Millisecond)
+	ctx.Set("lvl", c16Level(2))
+	ctx.Set("f32", float32(0.1))
+	ctx.Set("i8", 7)
+	ctx.Set("wantsDur", func(d time.Duration) string { return d.String() })
 	ctx.Set("recs", []T{newT("r0"), newT("r1")})
 	ctx.Set("one1", []interface{}{"only"})
 	ctx.Set("nested2", []interface{}{[]interface{}{1, 2}, []interface{}{3}})
 	ctx.Set("xs", []interface{}{"x0", "x1", "x2", "x3", "x4", "x5", "x6", "x7", "x8", "x9"})
 	return ctx
 }
+
+type c16Level int64
+
+func (l c16Level) String() string { return []string{"low", "mid", "high"}[l] }
 
 func c16Truthy(v interface{}) bool {
 	switch t := v.(type) {
@@ -468,6 +478,8 @@ func c16Run(b *core.B) {
 		{"body-let-shadows-parameter", `<% let f = fn(a) { let a = a + 1
  return a } %><% let a = 10 %><%= f(a) %>,<%= a %>,<%= f(1) %>`, "11,10,2"},
 		{"rebinding-a-function-name", `<% let f = fn(n) { return n + 1 } %><%= f(1) %><% let f = fn(n) { return n + 100 } %>|<%= f(1) %>`, "2|101"},
+		// an argument reaches the parameter with its value unchanged: its Go type included
+		{"arguments-keep-their-type", `<% let id = fn(x) { return x } %><%= id(dur) %>|<%= id(lvl) %>|<%= id(f32) %>|<%= wantsDur(id(dur)) %>|<%= id(i8) + id(i8) %>`, "1.5s|high|0.1|1.5s|14"},
 		// the value of a call is a value like any other: a path may go on after it
 		{"path-after-the-call", `<% let same = fn(x) { return x } %><%= same(rec).Name %>|<%= same(rec).Next.Name %>|<%= same(rec).Label() %>|<%= same(rec).Tags[1] %>|<%= len(same(rec).Tags) %>`, "r|n|L:r|t1|2"},
 		{"path-after-the-call-of-a-selecting-function", `<% let nth = fn(i) { return recs[i] } %><%= nth(1).Name %>|<%= nth(0).Name %>|<%= nth(1).Add(nth(0).N, 1) %>`, "r1|r0|8"},
